@@ -168,6 +168,29 @@ let put_world w =
      put_list (fun (p, c) -> L [put_nat p; put_pc c]) w.procs; put_list put_nat w.dead;
      put_list put_nat (in_critical w)]
 
+(* ---- history state machine (C10) ---- *)
+let get_params = function L [p; f] -> { pp = get_nat p; feeds = get_bool f } | _ -> failwith "params"
+let put_params p = L [put_nat p.pp; put_bool p.feeds]
+let rec get_ident = function
+  | L [A "plan"; p; s] -> IdPlan (get_params p, get_nat s)
+  | L [A "revert"; i; s] -> IdRevert (get_ident i, get_nat s)
+  | L [A "redo"; i; s] -> IdRedo (get_ident i, get_nat s)
+  | _ -> failwith "ident"
+let rec put_ident = function
+  | IdPlan (p, s) -> L [A "plan"; put_params p; put_nat s]
+  | IdRevert (i, s) -> L [A "revert"; put_ident i; put_nat s]
+  | IdRedo (i, s) -> L [A "redo"; put_ident i; put_nat s]
+let get_ref = function A "latest" -> RLatest | L [A "id"; i] -> RId (get_ident i) | _ -> failwith "ref"
+let get_cmd = function
+  | L [A "rename"; p] -> CRename (get_params p)
+  | L [A "undo"; r] -> CUndo (get_ref r)
+  | L [A "redo"; r] -> CRedo (get_ref r)
+  | _ -> failwith "cmd"
+let put_outcome = function Succeeded -> A "succeeded" | Rejected -> A "rejected" | NothingToDo -> A "nothing"
+let put_hstate s =
+  L [put_list (fun e -> L [put_ident e.e_id; put_opt put_ident e.e_revert_of]) s.h_hist;
+     put_list put_params s.h_tree; put_list put_params (implied_tree s.h_hist)]
+
 let dispatch (req : Sexp.t) : Sexp.t =
   match req with
   | L (A op :: args) -> begin
@@ -212,6 +235,14 @@ let dispatch (req : Sexp.t) : Sexp.t =
               | Some w' -> go w' es' (put_world w' :: acc)
               | None -> List.rev (A "invalid" :: acc)) in
         L (put_world w0 :: go w0 (get_list get_ev evs) [])
+      | "hist_run", [cs] ->
+        let rec go s cs acc = match cs with
+          | [] -> List.rev acc
+          | L [c; sec] :: cs' ->
+            let (s', o) = hist_step s (get_cmd c) (get_nat sec) in
+            go s' cs' (L [put_outcome o; put_hstate s'] :: acc)
+          | _ -> failwith "cmd list" in
+        L (go h_init (match cs with L l -> l | _ -> failwith "list") [])
       | "spec_apply", [p; t] -> put_fs (spec_apply (get_aplan p) (get_fs t))
       | "serde_plan", [p] ->
         let p = get_plan p in
